@@ -13,6 +13,7 @@ package gen
 // A ResultSpec is the serialisable form (replay files); ToResult builds the vegeta.Result.
 
 import (
+	"strconv"
 	"net/http"
 	"net/textproto"
 	"strings"
@@ -101,6 +102,22 @@ func interHeaderValue(r *kit.Rng) string {
 	return strings.Trim(v, " \t")
 }
 
+// ServerHeaders: what consecutive responses of one server look like — the same keys in every result,
+// first values from a tiny pool (so that neighbouring results often agree in every FIRST value), later
+// values of the multi-valued keys unique per result (`uniq`).
+func ServerHeaders(r *kit.Rng, uniq uint64) map[string][]string {
+	u := strconv.FormatUint(uniq, 10)
+	h := map[string][]string{
+		"Content-Type": {r.PickStr([]string{"text/html", "application/json"})},
+		"Set-Cookie":   {"lang=" + r.PickStr([]string{"en", "de"}), "sid=" + u},
+		"Vary":         {"Accept-Encoding", "X-" + u},
+	}
+	if r.Chance(0.5) {
+		h["Set-Cookie"] = append(h["Set-Cookie"], "t="+u+"; Path=/")
+	}
+	return h
+}
+
 func InterHeaders(r *kit.Rng) map[string][]string {
 	if r.Chance(0.3) {
 		return nil
@@ -166,6 +183,9 @@ func interBody(r *kit.Rng, size int) []byte {
 func InterResult(r *kit.Rng, seq uint64, bodySize int) ResultSpec {
 	s := ResultSpec{Seq: seq, Attack: InterText(r, 10), Error: InterText(r, 20), Method: r.PickStr([]string{"GET", "POST", "", "PUT", "get"}),
 		URL: "http://h/" + InterText(r, 15), Headers: InterHeaders(r), Body: interBody(r, bodySize)}
+	if r.Chance(0.2) {
+		s.Headers = ServerHeaders(r, seq)
+	}
 	if r.Chance(0.5) {
 		s.Error = ""
 	}
